@@ -8,7 +8,7 @@ import sympy as sp
 
 from .. import terms as TM
 from ..absint import Interp, Unsupported
-from .common import public_functional
+from .common import is_callable_value, public_functional
 from ..core import AnalysisError, Report, Repo
 from ..oracle import oracle_function, std_globals
 from ..schemas import O, P
@@ -60,6 +60,56 @@ def fields_read_by_quantise(repo: Repo) -> Set[str]:
         it.data_syms = {}
         it.call_function(it.class_attr(fo.cls, "quantise"), [fo, P("x", None)], {})
     return read
+
+
+OTHER_OPS = ["torch.nn.functional.gelu", "torch.nn.functional.softmax", "torch.matmul", "torch.add", "torch.nn.functional.layer_norm", "unit_scaling.functional.matmul", "unit_scaling.functional.gelu"]
+
+
+def op_value(it: Interp, dotted: str) -> Any:
+    if dotted.startswith("unit_scaling.functional."):
+        return it.get_global("unit_scaling/functional.py", dotted.rsplit(".", 1)[1])
+    return ExtV(dotted)
+
+
+def backend_of(it: Interp, ff: Obj, bf: Obj) -> Any:
+    """The quantisation backend, as simulate_format hands it to apply_transform (apply_transform opaque)."""
+    sfx = it.get_global(SF, "simulate_format")
+    saved = it.events
+    it.events = []
+    try:
+        it.call_function(sfx, [Obj("torch.nn.Module", term=T("param", ("module",))), ff, bf], {})
+        ap_ = [e for e in it.events if e.kind == "call" and e["callee"].endswith("apply_transform")]
+    finally:
+        it.events = saved
+    if len(ap_) != 1:
+        raise AnalysisError("simulate_format does not call apply_transform exactly once")
+    return ap_[0]["bound"].get("backend")
+
+
+def discover_wrappers(it: Interp) -> Dict[str, Tuple[Any, Any]]:
+    """op name -> (op value, callable the backend puts in its place), found by running the backend on a
+    one-op graph per candidate op; ops the backend leaves alone are absent."""
+    from ..fxmodel import AbstractGraph
+
+    out: Dict[str, Tuple[Any, Any]] = {}
+    ff, bf = Obj("FPFormat", term=T("param", ("fwd_format",))), Obj("FPFormat", term=T("param", ("bwd_format",)))
+    for dotted in list(OPS) + OTHER_OPS:
+        k = op_value(it, dotted)
+        backend = backend_of(it, ff, bf)
+        g = AbstractGraph(it)
+        x = g.node("x", "placeholder", "x")
+        n = g.node("op", "call_function", k, (x, x, x), {})
+        g.node("output", "output", "output", ((n,),), {})
+        saved = it.events
+        it.events = []
+        try:
+            it.call_function(backend, [Obj("torch.fx.GraphModule", attrs={"graph": g.obj}, term=T("param", ("gm",))), Obj("value", term=T("param", ("example_inputs",)))], {})
+        finally:
+            it.events = saved
+        calls = [m for m in g.nodes if m.attrs["op"] == "call_function"]
+        if len(calls) == 1 and calls[0] is not n:
+            out[dotted] = (k, calls[0].attrs["target"])
+    return out
 
 
 def check_per_format(report: Report, repo: Repo, rule: str) -> None:
@@ -146,26 +196,25 @@ def check(report: Report, repo: Repo) -> None:
     check_per_format(report, repo, "R1-straight-through")
 
     # ------------------------------------------------------------ R2 wrappers
-    opq = lambda f: (public_functional(f)) or isinstance(f, FuncV) and (f.qualname in ("tuple_to_format", "format_to_tuple", "replace_node_with_function", "_replace_with_quantised", "apply_transform", "simulate_format"))
+    opq = lambda f: (public_functional(f)) or isinstance(f, FuncV) and (f.qualname in ("tuple_to_format", "format_to_tuple", "apply_transform"))
     it2 = Interp(repo, opaque=opq)
-    rmap = it2.get_global(SF, "_replacement_map")
-    if not isinstance(rmap, dict):
-        raise AnalysisError("anchor vanished: _simulate_format.py::_replacement_map is not a literal dict")
     g = std_globals(it2)
     g["tuple_to_format"] = it2.get_global(FM, "tuple_to_format")
     ref = oracle_function(it2, "ref3", REF_WRAPPERS, g)
-    keys = {keyname(k): (k, w) for k, w in rmap.items()}
-    report.note("replacement_map_keys", sorted(keys))
+    keys = discover_wrappers(it2)
+    report.note("ops_rewritten_by_the_backend", sorted(keys))
     for kn in OPS:
         if kn not in keys:
-            report.add("R2-wrappers", f"{SF}::_replacement_map[{kn}]", False, "linear / attention operation (plain or unit-scaled) is missing from the replacement map", sorted(keys), kn)
-    for kn, (k, w) in keys.items():
-        cons = f"{SF}::{getattr(w, 'qualname', fmt(w))}"
+            report.add("R2-wrappers", f"{SF}::rewritten-ops[{kn}]", False, "linear / attention operation (plain or unit-scaled) is not rewritten by the quantisation backend", sorted(keys), kn)
+    for kn in keys:
         if kn not in OPS:
-            report.add("R2-wrappers", cons, None, f"replacement-map key {kn} is not in the frozen op table")
+            report.add("R2-wrappers", f"{SF}::rewritten-ops[{kn}]", False, "the backend rewrites an operation that is not a linear / attention operation (\"nothing else changed\")", sorted(keys), sorted(OPS))
+    for kn, (k, w) in keys.items():
+        if kn not in OPS:
             continue
-        if not isinstance(w, FuncV):
-            report.add("R2-wrappers", cons, False, "map value is not a module-level function")
+        cons = f"{SF}::quantised[{'U' if kn.startswith('unit_scaling') else 'F'}.{kn.rsplit('.', 1)[1]}]"
+        if not is_callable_value(it2, w):
+            report.add("R2-wrappers", cons, False, "the replacement target is not callable", fmt(w), "callable")
             continue
         names3, q3, more = OPS[kn]
         a, b, c = (P(n, None) for n in names3)
@@ -222,11 +271,24 @@ def check(report: Report, repo: Repo) -> None:
             report.add("R3-transport", cons, ok, f"{label}: field '{fld}' must survive format_to_tuple/tuple_to_format (it is read by quantise)", f"{fld}={fmt(v1)}", f"{fld}={fmt(v0)}")
 
     # ------------------------------------------------------------ R4 splice / signature agreement
-    rwq = Interp(repo, opaque=lambda f: isinstance(f, FuncV) and f.qualname in ("replace_node_with_function", "format_to_tuple"))
-    splice = rwq.get_global(SF, "_replace_with_quantised")
-    keys_r = {keyname(k): (k, w) for k, w in rwq.get_global(SF, "_replacement_map").items()}
+    # The backend is obtained through the public entry point (simulate_format hands it to apply_transform) and
+    # run on abstract FX graphs; the rewritten node is then read back from the graph.  No private helper of
+    # _simulate_format.py is named here.
+    from ..fxmodel import AbstractGraph, is_node
+
+    opq4 = lambda f: isinstance(f, FuncV) and f.qualname in ("apply_transform", "format_to_tuple")
+    it4 = Interp(repo, opaque=opq4)
+    keys_r = discover_wrappers(it4)
+
+    def wrapper_of(w: Any) -> Any:
+        """The function object the rewritten node must call (the map value itself)."""
+        return w
+
+    def same_callable(a_: Any, b_: Any) -> bool:
+        return a_ is b_ or (isinstance(a_, FuncV) and isinstance(b_, FuncV) and a_.node is b_.node)
+
     for kn, (k, w) in keys_r.items():
-        if kn not in OPS or not isinstance(w, FuncV):
+        if kn not in OPS or not is_callable_value(it4, w):
             continue
         names3, q3, more = OPS[kn]
         # definite (non-None) argument values
@@ -239,46 +301,50 @@ def check(report: Report, repo: Repo) -> None:
             forms.append((f"'{mname}' by keyword", list(names3), [mname]))
         if more:
             forms.append((f"'{more[0]}' positional", list(names3) + [more[0]], []))
-        none_kw = None
         if "constraint" in more:
-            none_kw = "constraint"  # an explicit None differs from the default for this parameter
+            # an explicit None differs from the default for this parameter
             forms.append(("'constraint'=None by keyword", list(names3), ["constraint=None"]))
         for fname, pos, kws in forms:
-            cons = f"{SF}::_replace_with_quantised[{'U' if kn.startswith('unit_scaling') else 'F'}.{kn.rsplit('.', 1)[1]}]"
+            cons = f"{SF}::quantisation-rewrite[{'U' if kn.startswith('unit_scaling') else 'F'}.{kn.rsplit('.', 1)[1]}]"
             explicit_none = [n[:-5] for n in kws if n.endswith("=None")]
             kws = [n for n in kws if not n.endswith("=None")]
-            node = Obj("torch.fx.node.Node", attrs=dict(args=tuple(vals[n] for n in pos), kwargs={**{n: vals[n] for n in kws}, **{n: None for n in explicit_none}}, target=k, op="call_function"), term=T("param", ("node",)), open_attrs=False)
-            graph = Obj("torch.fx.graph.Graph", term=T("param", ("graph",)))
             ff, bf = Obj("FPFormat", term=T("param", ("fwd_format",))), Obj("FPFormat", term=T("param", ("bwd_format",)))
-            rwq.events = []
             try:
-                rwq.call_function(splice, [graph, node, ff, bf], {})
+                backend = backend_of(it4, ff, bf)
+                g4 = AbstractGraph(it4)
+                node = g4.node("op", "call_function", k, tuple(vals[n] for n in pos), {**{n: vals[n] for n in kws}, **{n: None for n in explicit_none}})
+                g4.node("output", "output", "output", ((node,),), {})
+                gm4 = Obj("torch.fx.GraphModule", attrs={"graph": g4.obj}, term=T("param", ("gm",)))
+                it4.events = []
+                res4 = it4.call_function(backend, [gm4, O("example_inputs")], {})
             except Unsupported as ex:
                 report.add("R4-splice", cons, None, f"{fname}: outside fragment: {ex}")
                 continue
-            calls = [e for e in rwq.events if e.kind == "call" and e["callee"].endswith("replace_node_with_function")]
-            if len(calls) != 1:
-                report.add("R4-splice", cons, False, f"{fname}: expected one replace_node_with_function call, found {len(calls)}")
+            raised = [e["exc"] for e in it4.events if e.kind == "raise"]
+            if res4 is BOTTOM or raised:
+                report.add("R4-splice", cons, False, f"{fname}: the backend raises on this call form: {raised}", raised, "no error")
                 continue
-            b = calls[0]["bound"]
-            new_args = b.get("args")
-            new_kwargs = b.get("kwargs")
-            if new_args is None:
-                new_args = node.attrs["args"]
-            if new_kwargs is None:
-                new_kwargs = node.attrs["kwargs"]  # replace_node_with_function re-attaches source.kwargs
-            tgt = b.get("target_fn")
-            if not (isinstance(tgt, FuncV) and tgt.node is w.node):
-                report.add("R4-splice", cons, False, f"{fname}: replacement target must be the wrapper registered for {kn}", fmt(tgt), w.qualname)
+            new_nodes = [n_ for n_ in g4.nodes if n_.attrs["op"] == "call_function" and same_callable(n_.attrs["target"], w)]
+            old_left = [n_ for n_ in g4.nodes if n_ is node]
+            if len(new_nodes) != 1 or old_left:
+                report.add("R4-splice", cons, False, f"{fname}: the op node must be replaced by exactly one call of the wrapper registered for {kn}", [d_[1] for d_ in g4.describe()], fmt(w))
                 continue
+            nn_ = new_nodes[0]
+            outn = [n_ for n_ in g4.nodes if n_.attrs["op"] == "output"][0]
+            rewired = any(x_ is nn_ for x_ in g4.inputs_of(outn))
+            report.add("R4-splice", f"{cons}::uses", rewired, f"{fname}: consumers of the op now read the quantised call", "rewired" if rewired else "dangling", "rewired", nontrivial=False)
+            new_args, new_kwargs = nn_.attrs["_args"], nn_.attrs["_kwargs"]
             if not isinstance(new_args, (tuple, list)) or not isinstance(new_kwargs, dict):
                 report.add("R4-splice", cons, None, f"{fname}: spliced arguments are not statically known")
                 continue
+            w_sig = it4.unwrap(w)  # the signature a caller sees (functools.wraps is followed)
+            if not isinstance(w_sig, FuncV):
+                report.add("R4-splice", cons, None, f"{fname}: the wrapper's signature is not statically known ({fmt(w_sig)})")
+                continue
             try:
-                w_sig = rwq.unwrap(w)  # the signature a caller sees (functools.wraps is followed)
-                bound = rwq.bind(w_sig if isinstance(w_sig, FuncV) else w, list(new_args), dict(new_kwargs))
+                bound = it4.bind(w_sig, list(new_args), dict(new_kwargs))
             except Unsupported as ex:
-                report.add("R4-splice", cons, False, f"{fname}: the rewritten call does not bind to {w.qualname}{ast.unparse(w.node.args)!s:.80}: {ex}", f"args={fmt(tuple(new_args))} kwargs={fmt(new_kwargs)}", "a call that binds")
+                report.add("R4-splice", cons, False, f"{fname}: the rewritten call does not bind to {w_sig.qualname}{ast.unparse(w_sig.node.args)!s:.80}: {ex}", f"args={fmt(tuple(new_args))} kwargs={fmt(new_kwargs)}", "a call that binds")
                 continue
             flat = dict(bound)
             for vk in ("kwargs",):
@@ -309,66 +375,73 @@ def check(report: Report, repo: Repo) -> None:
                 report.add("R4-splice", cons, True, f"{fname}: rewritten call binds with every argument in its role", fmt(tuple(new_args)), "binds")
 
     # ------------------------------------------------------------ R5 backend sweep and entry points
-    it5 = Interp(repo, opaque=lambda f: isinstance(f, FuncV) and f.qualname in ("_replace_with_quantised", "apply_transform", "simulate_format"))
-    qb = it5.get_global(SF, "_quantisation_backend")
+    it5 = Interp(repo, opaque=opq4)
     ff, bf = Obj("FPFormat", term=T("param", ("fwd_format",))), Obj("FPFormat", term=T("param", ("bwd_format",)))
-    cons = f"{SF}::_quantisation_backend"
+    cons = f"{SF}::quantisation-backend"
     try:
-        backend = it5.call_function(qb, [ff, bf], {})
-        mk = lambda nm, op, tgt: Obj("torch.fx.node.Node", attrs=dict(op=op, target=tgt, args=(), kwargs={}), term=T("param", (nm,)), open_attrs=False)
-        nodes = [mk("n_placeholder", "placeholder", "x")]
-        expect_hit = []
-        keys5 = {keyname(k): (k, w) for k, w in it5.get_global(SF, "_replacement_map").items()}
+        backend = backend_of(it5, ff, bf)
+        g5 = AbstractGraph(it5)
+        x5 = g5.node("x", "placeholder", "x")
+        keys5 = discover_wrappers(it5)
+        fn_nodes, other_nodes = [], []
         for i, (kn, (k, w)) in enumerate(sorted(keys5.items())):
-            n_ = mk(f"n_fn{i}", "call_function", k)
-            nodes.append(n_)
-            expect_hit.append(n_)
-            nodes.append(mk(f"n_meth{i}", "call_method", k))  # same target, other opcode: untouched
-        nodes.append(mk("n_relu", "call_function", ExtV("torch.relu")))
-        nodes.append(mk("n_out", "output", "output"))
-        graph = Obj("torch.fx.graph.Graph", attrs=dict(nodes=nodes), term=T("param", ("graph",)))
-        gm = Obj("torch.fx.GraphModule", attrs=dict(graph=graph), term=T("param", ("gm",)))
+            fn_nodes.append((g5.node(f"fn{i}", "call_function", k, (x5, x5, x5), {}), w))
+            other_nodes.append(g5.node(f"meth{i}", "call_method", k, (x5,), {}))  # same target, other opcode: untouched
+        other_nodes.append(g5.node("relu", "call_function", ExtV("torch.relu"), (x5,), {}))
+        g5.node("output", "output", "output", (tuple(n_ for n_, _w in fn_nodes) + tuple(other_nodes),), {})
+        gm5 = Obj("torch.fx.GraphModule", attrs={"graph": g5.obj}, term=T("param", ("gm",)))
         it5.events = []
-        out = it5.call_function(backend, [gm, O("example_inputs")], {})
-        calls = [e for e in it5.events if e.kind == "call" and e["callee"].endswith("_replace_with_quantised")]
-        hit = [e["bound"].get("node") for e in calls]
-        ok = len(hit) == len(expect_hit) and all(h is e_ for h, e_ in zip(hit, expect_hit))
-        report.add("R5-backend", f"{cons}::sweep", ok, "exactly the call_function nodes whose target is in the map are rewritten, in graph order", [fmt(h) for h in hit], [fmt(h) for h in expect_hit])
-        okf = all(e["bound"].get("fwd_format") is ff and e["bound"].get("bwd_format") is bf and e["bound"].get("graph") is graph for e in calls)
-        report.add("R5-backend", f"{cons}::formats", okf, "each rewrite receives (graph, node, fwd_format, bwd_format) in that order", "ok" if okf else "swapped/other", "fwd then bwd")
-        lint = [e for e in it5.events if e.kind == "callv" and "lint" in fmt(e["callee"])]
-        report.add("R5-backend", f"{cons}::lint", len(lint) == 1, "graph.lint() is called once after the rewrite", len(lint), 1, nontrivial=False)
+        out = it5.call_function(backend, [gm5, O("example_inputs")], {})
+        raised = [e["exc"] for e in it5.events if e.kind == "raise"]
+        calls_now = [(n_.attrs["op"], n_.attrs["target"]) for n_ in g5.nodes if n_.attrs["op"] in ("call_function", "call_method")]
+        want = []
+        for (n_, w), m_ in zip(fn_nodes, other_nodes):
+            want.append(("call_function", w))
+            want.append(("call_method", m_.attrs["target"]))
+        want.append(("call_function", ExtV("torch.relu")))
+        ok = not raised and len(calls_now) == len(want) and all(o1 == o2 and (same_callable(t1, t2) or t1 == t2) for (o1, t1), (o2, t2) in zip(calls_now, want))
+        report.add("R5-backend", f"{cons}::sweep", ok, "exactly the call_function nodes whose target is in the map are rewritten (to that target's wrapper), in graph order; other opcodes and other targets are untouched", [f"{o}:{fmt(t)}" for o, t in calls_now], [f"{o}:{fmt(t)}" for o, t in want])
+        untouched = all(any(n_ is m_ for n_ in g5.nodes) for m_ in other_nodes)
+        report.add("R5-backend", f"{cons}::others", untouched, "nodes that are not linear / attention calls are the same node objects as before", "kept" if untouched else "replaced", "kept", nontrivial=False)
+        report.add("R5-backend", f"{cons}::lint", g5.linted >= 1, "graph.lint() is called after the rewrite", g5.linted, ">=1", nontrivial=False)
         ot = TM.term_of(out)
         okr = isinstance(ot, T) and ot.op == "call" and "GraphModule" in str(ot.args[0])
         report.add("R5-backend", f"{cons}::return", okr, "returns a GraphModule built from (gm, graph)", fmt(ot), "GraphModule(gm, graph)", nontrivial=False)
+        # the formats reach the rewritten calls in (forward, backward) order
+        okf = True
+        for n_ in g5.nodes:
+            if n_.attrs["op"] == "call_function" and any(same_callable(n_.attrs["target"], w) for _n, w in fn_nodes):
+                tups = [TM.term_of(a_) for a_ in n_.attrs["_args"] if isinstance(TM.term_of(a_), T) and TM.term_of(a_).op == "call" and str(TM.term_of(a_).args[0]).endswith("format_to_tuple")]
+                okf = okf and [dict(t_.args[1]).get("format") for t_ in tups] == [T("param", ("fwd_format",)), T("param", ("bwd_format",))]
+        report.add("R5-backend", f"{cons}::formats", okf, "each rewritten call receives format_to_tuple(fwd_format) then format_to_tuple(bwd_format)", "ok" if okf else "swapped/other", "fwd then bwd")
     except Unsupported as ex:
         report.add("R5-backend", cons, None, f"outside fragment: {ex}")
     # simulate_format / simulate_fp8
     try:
-        it5.events = []
-        sf = it5.get_global(SF, "simulate_format")
         it6 = Interp(repo, opaque=lambda f: isinstance(f, FuncV) and f.qualname in ("apply_transform",))
         sf6 = it6.get_global(SF, "simulate_format")
         mod = Obj("torch.nn.Module", term=T("param", ("module",)))
+        it6.events = []
         it6.call_function(sf6, [mod, ff, bf], {})
         ap = [e for e in it6.events if e.kind == "call" and e["callee"].endswith("apply_transform")]
-        okb = len(ap) == 1 and isinstance(ap[0]["bound"].get("backend"), FuncV) and ap[0]["bound"]["backend"].env is not None
-        if okb:
-            env = ap[0]["bound"]["backend"].env
-            f1, v1 = env.lookup("fwd_format")
-            f2, v2 = env.lookup("bwd_format")
-            okb = f1 and f2 and v1 is ff and v2 is bf and ap[0]["bound"].get("module") is mod
-        report.add("R5-backend", f"{SF}::simulate_format", okb, "applies the quantisation backend built from (fwd_format, bwd_format) in that order to the module", "ok" if okb else "mismatch", "apply_transform(module, _quantisation_backend(fwd_format, bwd_format))")
-        fp8 = it5.get_global(SF, "simulate_fp8")
-        it5.events = []
-        it5.call_function(fp8, [mod], {})
-        c = [e for e in it5.events if e.kind == "call" and e["callee"].endswith("simulate_format")]
-        okf = len(c) == 1
+        okb = len(ap) == 1 and ap[0]["bound"].get("module") is mod and is_callable_value(it6, ap[0]["bound"].get("backend"))
+        report.add("R5-backend", f"{SF}::simulate_format", okb, "applies a quantisation backend to the module given (the order of the two formats is decided by ::formats above)", "ok" if okb else "mismatch", "apply_transform(module, backend)")
+        # simulate_fp8: run the backend it installs on a one-op graph and read the formats off the rewritten call
+        fp8 = it6.get_global(SF, "simulate_fp8")
+        it6.events = []
+        it6.call_function(fp8, [mod], {})
+        ap = [e for e in it6.events if e.kind == "call" and e["callee"].endswith("apply_transform")]
         got = None
+        okf = len(ap) == 1 and ap[0]["bound"].get("module") is mod
         if okf:
-            fb, bb = c[0]["bound"].get("fwd_format"), c[0]["bound"].get("bwd_format")
-            got = [(getattr(o, "attrs", {}).get("exponent_bits"), getattr(o, "attrs", {}).get("mantissa_bits")) for o in (fb, bb)]
-            okf = got == [(4, 3), (5, 2)] and c[0]["bound"].get("module") is mod
+            g6 = AbstractGraph(it6)
+            x6 = g6.node("x", "placeholder", "x")
+            n6 = g6.node("lin", "call_function", ExtV("torch.nn.functional.linear"), (x6, x6, x6), {})
+            g6.node("output", "output", "output", ((n6,),), {})
+            it6.call_function(ap[0]["bound"]["backend"], [Obj("torch.fx.GraphModule", attrs={"graph": g6.obj}, term=T("param", ("gm",))), O("example_inputs")], {})
+            tups = [a_ for n_ in g6.nodes if n_.attrs["op"] == "call_function" for a_ in n_.attrs["_args"] if isinstance(a_, tuple)]
+            got = [tuple(t_[:2]) for t_ in tups]
+            okf = got == [(4, 3), (5, 2)]
         report.add("R5-backend", f"{SF}::simulate_fp8", okf, "simulate_fp8 is the E4M3-forward / E5M2-backward instance", got, [(4, 3), (5, 2)])
     except Unsupported as ex:
         report.add("R5-backend", f"{SF}::simulate_format", None, f"outside fragment: {ex}")
